@@ -742,3 +742,106 @@ def r_field_vocab(ctx, repo):
         rule.fail('%s|deep' % o.qualname, o.module.rel, o.node.lineno, o.qualname, "deep = hasattr(instance, '__setstate__')",
                   'construct_python_object no longer constructs the state eagerly when it is handed to __setstate__')
     return rule
+
+
+def r_state_applied(ctx, repo):
+    """R-STATE-APPLIED: must-use analysis of the object state in set_python_instance_state.
+
+    pickle applies *both* halves of a (dict_state, slot_state) pair.  Tracked values: the state parameter and every local
+    that receives (part of) a tracked value (tuple unpacking, subscripts, `y.update(x)` transfers).  From each definition of a
+    tracked name, every normal path to the exit must pass a statement that *applies* it (argument of a call, iterable of a
+    `for`, right-hand side of another tracked definition) or leave through the false edge of a plain truthiness test of that
+    name (nothing to apply).  A path on which a half is silently dropped is a violation.
+    """
+    rule = ctx.rule('R-STATE-APPLIED', 'every part of the object state (dict half and slot half) is applied to the instance on '
+                                       'every normal path of set_python_instance_state')
+    f = repo.func('constructor.FullConstructor.set_python_instance_state')
+    if len(f.params) < 3:
+        raise AnalysisError('set_python_instance_state: expected (self, instance, state, ...)')
+    state = f.params[2]
+    cfg = CFG(f.node)
+
+    def names_loaded(e):
+        return {x.id for x in ast.walk(e) if isinstance(x, ast.Name) and isinstance(x.ctx, ast.Load)}
+
+    # taint closure over local names
+    tracked = {state}
+    changed = True
+    while changed:
+        changed = False
+        for n in cfg.nodes:
+            a = n.ast
+            if n.kind == 'stmt' and isinstance(a, ast.Assign) and names_loaded(a.value) & tracked:
+                for t in a.targets:
+                    for x in ast.walk(t):
+                        if isinstance(x, ast.Name) and isinstance(x.ctx, ast.Store) and x.id not in tracked:
+                            tracked.add(x.id)
+                            changed = True
+            if n.kind == 'stmt' and isinstance(a, ast.Expr) and isinstance(a.value, ast.Call) and \
+                    isinstance(a.value.func, ast.Attribute) and a.value.func.attr in ('update', 'extend', 'append') and \
+                    isinstance(a.value.func.value, ast.Name) and any(names_loaded(x) & tracked for x in a.value.args):
+                if a.value.func.value.id not in tracked:
+                    tracked.add(a.value.func.value.id)
+                    changed = True
+
+    def applies(n, v):
+        """does CFG node n hand the value of v on (call argument / loop iterable / source of another definition)?"""
+        a = n.ast
+        if a is None:
+            return False
+        if n.kind == 'for':
+            return v in names_loaded(a)
+        if n.kind in ('stmt', 'return'):
+            if isinstance(a, ast.Assign):
+                return v in names_loaded(a.value)
+            for c in ast.walk(a):
+                if isinstance(c, ast.Call):
+                    for x in list(c.args) + [k.value for k in c.keywords]:
+                        if v in names_loaded(x):
+                            # isinstance/len/hasattr only inspect
+                            if norm(c.func) in ('isinstance', 'len', 'hasattr', 'type', 'bool'):
+                                continue
+                            return True
+        return False
+
+    def is_def(n, v):
+        a = n.ast
+        if n.kind == 'stmt' and isinstance(a, ast.Assign):
+            if any(isinstance(x, ast.Name) and x.id == v and isinstance(x.ctx, ast.Store) for t in a.targets for x in ast.walk(t)):
+                # empty literal: nothing to apply
+                if isinstance(a.value, (ast.Dict, ast.List, ast.Tuple, ast.Set)) and not (getattr(a.value, 'keys', None) or getattr(a.value, 'elts', None)):
+                    return False
+                if isinstance(a.value, ast.Constant) and not a.value.value:
+                    return False
+                return True
+        if n.kind == 'stmt' and isinstance(a, ast.Expr) and isinstance(a.value, ast.Call) and isinstance(a.value.func, ast.Attribute) \
+                and a.value.func.attr in ('update', 'extend', 'append') and isinstance(a.value.func.value, ast.Name) \
+                and a.value.func.value.id == v and any(names_loaded(x) & tracked for x in a.value.args):
+            return True
+        return False
+
+    n_obl = 0
+    for v in sorted(tracked):
+        consumers = [n for n in cfg.nodes if applies(n, v) and not (is_def(n, v) and not (n.kind == 'stmt' and isinstance(n.ast, ast.Assign) and v in names_loaded(n.ast.value)))]
+        empty_edges = [(n, False) for n in cfg.nodes if n.kind == 'test' and isinstance(n.ast, ast.Name) and n.ast.id == v]
+        empty_edges += [(n, True) for n in cfg.nodes if n.kind == 'test' and isinstance(n.ast, ast.UnaryOp)
+                        and isinstance(n.ast.op, ast.Not) and isinstance(n.ast.operand, ast.Name) and n.ast.operand.id == v]
+        starts = [cfg.entry] if v == state else []
+        starts += [n for n in cfg.nodes if is_def(n, v)]
+        for d in starts:
+            n_obl += 1
+            first = [m for (m, lab) in cfg.succ[d] if lab != 'exc']
+            r = cfg.reach(first, blocked=consumers, blocked_edges=empty_edges, follow_exc=False)
+            dropped = [x for x in cfg.normal_exits() if x in r]
+            # a consumer that is itself the start (e.g. `state, slot = state`) was already passed
+            if dropped:
+                rule.fail('%s|%s dropped' % (f.qualname, v), f.module.rel, d.lineno or f.node.lineno, f.qualname, v,
+                          'on some path from line %d to the end of the function the value of `%s` (part of the object state) is '
+                          'neither applied to the instance nor known to be empty: pickle restores both the __dict__ half and the '
+                          'slots half of a (dict_state, slot_state) pair, here one half is silently dropped for some classes '
+                          '(e.g. a class with __slots__ in a base and an instance __dict__)' % (d.lineno or f.node.lineno, v))
+            else:
+                rule.ok(f.loc(d.ast if d.ast is not None else f.node), '`%s` is applied on every path' % v)
+    if n_obl < 3:
+        raise AnalysisError('R-STATE-APPLIED: fewer than 3 state definitions found in set_python_instance_state')
+    return rule
